@@ -1036,6 +1036,21 @@ def classify_body(body, before, want, after):
     return dict(sig="body-differs-from-paths", what="commands between the wrappers differ from the command paths (cmd, level)")
 
 
+def rows_at(tree, path):
+    """rows of the block at `path` of a dumped PatchTree ([[row, children|None, ...], ...])"""
+    cur = tree
+    for k in path:
+        nxt = None
+        for it in cur or []:
+            if it[0] == k and it[1] is not None:
+                nxt = it[1]
+                break
+        if nxt is None:
+            return []
+        cur = nxt
+    return [it[0] for it in cur or []]
+
+
 def classify_mismatch(case, shown, paths):
     """why the shown lines differ from the command paths: one violation per kind of repeated block path"""
     keys = [tuple(p) for p, _ in paths]
@@ -1053,6 +1068,16 @@ def classify_mismatch(case, shown, paths):
                     # how many of the n occurrences are rows of the PatchTree (the others are formatter exit statements)
                     rows_n = count_rows(case["patch"], p)
                     kind = "row-twice" if rows_n >= n else ("exit-twice" if rows_n == 0 else "row-equals-exit")
+                    if kind == "exit-twice":
+                        # the recorded shape: the exit statement follows an `else` block and the LAST block of its parent;
+                        # an exit statement after any other block is something else
+                        sibs = rows_at(case["patch"], p[:-1])
+                        for i, q in enumerate(sp):
+                            if q != p:
+                                continue
+                            prev = next((x for x in reversed(sp[:i]) if len(x) == len(p) and x[:-1] == p[:-1] and x != p), None)
+                            if prev is not None and prev[-1] != "else" and (not sibs or prev[-1] != sibs[-1]):
+                                kind = "exit-twice:after-non-final-block"
                     kinds.setdefault(kind, []).append(" / ".join(p))
             return [dict(sig="repeated-path-sent-once:" + kind,
                          what="the patch shows %d lines, %d commands are sent: block path(s) %s shown more than once (%s) are one "
